@@ -35,13 +35,14 @@ def corruptions(trace):
             if out["v"] in ("OnlyCallStartOnce", "OnlyCallFinishOnce", "OffSides", "ReflectionThwarted", "SerializedTooEarly",
                             "WrongSideSerialized", "WrongGroupError"):
                 yield mk(["out", "v"], "ValueError", "%s.errclass" % op)
-        if op == "start" and ev["ent"]:
+        if op == "start" and ev["ent"] and "entfail" not in ev:     # what a FAILING entropy function had served is immaterial
             e2 = copy.deepcopy(ev["ent"])
             e2[-1]["got"] = flip(e2[-1]["got"])
             yield mk(["ent"], e2, "start.entropy")
         if op in ("finish", "serialize", "new", "restore") and not ev["ent"]:
             yield mk(["ent"], [{"req": 1, "got": "00"}], "%s.entropy-drawn" % op)
-        if op == "new":
+        # (the password of an instance that never sends or receives anything has no observable consequence)
+        if op == "new" and any(e["op"] == "start" and e["inst"] == ev["inst"] and e["out"]["t"] == "msg" for e in evs):
             yield mk(["pw"], flip(ev["pw"]), "new.pw")
         if op == "serialize" and out.get("t") == "blob":
             for k in out["fields"]:
@@ -58,6 +59,14 @@ def corruptions(trace):
             yield mk(["out"], {"t": "err", "v": "WrongGroupError"}, "restore.inst->err")
         if op == "peek" and out.get("t") == "val":
             yield mk(["out"], {"t": "val", "v": flip(out["v"])}, "peek.outbound")
+        if op == "start" and "entfail" in ev:
+            t = copy.deepcopy(trace)
+            del t["events"][i]["entfail"]
+            t["name"] = "%s#%d.start.entfail-removed" % (trace["name"], i + 1)
+            yield "start.entfail-removed", t
+            yield mk(["out"], {"t": "msg", "v": "41" + "00" * 3}, "start.entfail->msg")
+        if op == "serialize" and out.get("t") == "err" and i > 0 and "entfail" in evs[i - 1]:
+            yield mk(["out"], {"t": "blob", "raw": "7b7d", "fields": {}}, "serialize.in-limbo->blob")
         if op == "consts":
             for k in ev["vals"]:
                 v2 = dict(ev["vals"])
@@ -81,6 +90,11 @@ def main():
             r.start("a", b"")
             r.finish("b", ma)
             r.finish("a", b"A" + ma[1:])
+            # an instance whose entropy function raises: limbo, then the retry (the code refuses it)
+            r.new("c", "S" if pairing == "SS" else "A", ps, b"pw", b"a", b"" if pairing == "SS" else b"b")
+            r.start("c", mp.stream_for(g, 2 % q), fail_after=0)
+            r.serialize("c")
+            r.start("c", mp.stream_for(g, 2 % q))
             good.append(r.json())
     res, _ = validate_traces(good, uni.header(), label="selftest-good")
     assert all(not r["errs"] for r in res), [r for r in res if r["errs"]]
